@@ -82,7 +82,10 @@ func runC37(c *Ctx) {
 		ds := c.Func("internal/codec", "DecodeSupervisor")
 		f := c.NewFlow(ds)
 		ns := f.CallTo(c.FuncObj("supervisor", "NewSupervisor"))
-		nilSpec := f.NilCheckEdges(func(e ast.Expr) bool { id, ok := e.(*ast.Ident); return ok && id.Name == "spec" }, false)
+		nilSpec := f.NilCheckEdges(func(e ast.Expr) bool {
+			ps := ds.Obj.Type().(*types.Signature).Params()
+			return ps.Len() == 1 && objOf(f.Info, e) == types.Object(ps.At(0))
+		}, false)
 		w := f.ExitReachable(nil, ns, nilSpec, nil)
 		c.Check(w == nil, "decode-constructs-via-NewSupervisor", "every non-nil spec is decoded through NewSupervisor", c.P.Pos(ds.Decl.Pos()), f.describe(w))
 	})
